@@ -7,7 +7,15 @@
 namespace tbbstub {
 // runs body(i) for every i in [0,count) exactly once, on the calling thread and up to
 // (allowed parallelism - threads already active) helper threads; returns after all finished
-void run_parallel(unsigned long long count, void (*body)(void *ctx, unsigned long long i), void *ctx);
+// a task group context: carries the cancellation request of a group of tasks. An algorithm run in a
+// cancelled context executes nothing; a body that throws cancels the context and the exception is
+// rethrown in the caller after the algorithm's threads have stopped. A context supplied by the user
+// stays cancelled until reset() (the implicit per-call context is fresh for every call).
+struct Context
+{
+  bool cancelled = false;
+};
+void run_parallel(unsigned long long count, void (*body)(void *ctx, unsigned long long i), void *ctx, Context *group = nullptr);
 void enqueue(std::function<void()> f);           // fire and forget, executed eventually by a worker thread
 int active_parallelism();                        // current max_allowed_parallelism
 void *control_push(int n);
